@@ -86,12 +86,48 @@ def rand_uint(rng, bits: int) -> int:
 
 
 def rand_bytes(rng, n: int) -> bytes:
+    """Octet strings with data hazards mixed in: content that a strip / split / run-length / marker search / text decode /
+    sign extension treats specially (about one string in four), uniform random octets otherwise."""
     r = rng.random()
-    if r < 0.05:
+    if r < 0.04:
         return bytes(n)
-    if r < 0.10:
+    if r < 0.08:
         return b"\xff" * n
-    return rng.randbytes(n)
+    if n == 0 or r >= 0.26:
+        return rng.randbytes(n)
+    b = bytearray(rng.randbytes(n))
+    k = rng.randrange(1, min(n, 4) + 1)
+    h = int((r - 0.08) / 0.18 * 12)
+    if h == 0:
+        b[-k:] = bytes(k)                                   # trailing zeros
+    elif h == 1:
+        b[:k] = bytes(k)                                    # leading zeros
+    elif h == 2:
+        b[-k:] = rng.choice((b" ", b"\n", b"\r\n", b"\t"))[:1] * k  # trailing white space
+    elif h == 3:
+        b[:k] = b"\xff" * k                                 # high bit set in front (sign extension)
+    elif h == 4:
+        b[:] = bytes([rng.getrandbits(8)]) * n              # one octet repeated
+    elif h == 5:
+        m = b"cfdp"                                         # a marker the code under test knows, somewhere inside
+        i = rng.randrange(0, max(1, n - len(m) + 1))
+        b[i:i + len(m)] = m[:n - i]
+    elif h == 6:
+        b[:] = (b"printable ASCII text 0123456789 " * (n // 32 + 1))[:n]
+    elif h == 7:
+        mark = rng.choice((b"\xef\xbb\xbf", b"\xfe\xff", b"\x1a\xcf\xfc\x1d"))[:k]          # byte-order marks / sync marker in front
+        b[:len(mark)] = mark
+    elif h == 8:
+        b[-1] = rng.choice((0x00, 0x80, 0x7F, 0xFF))        # a particular last octet
+    elif h == 9:
+        b[0] = rng.choice((0x00, 0x80, 0x7F, 0xFF, 0x20, 0x40))
+    elif h == 10 and n >= 2:
+        from spverif.ref.crc import crc16                   # data that end with the CRC-16 of what precedes them
+        b[-2:] = crc16(bytes(b[:-2])).to_bytes(2, "big")
+    else:
+        b[:] = bytes((i * 17 + 3) & 0xFF for i in range(n))  # arithmetic pattern
+    assert len(b) == n
+    return bytes(b)
 
 
 def rand_len(rng, maxlen: int) -> int:
